@@ -1141,6 +1141,11 @@ func (m *Model) StepBlock(blk *Block, w *BlockWitness, forceFail int) (pre []MRe
 
 // StepBlockF: as StepBlock; forcePre >= 0 makes that keeper operation fail (an injected listener failure).
 func (m *Model) StepBlockF(blk *Block, w *BlockWitness, forceFail, forcePre int) (pre []MResult, fx BlockEffects, txr []MTxRes) {
+	return m.StepBlockFS(blk, w, map[int]bool{forceFail: true}, forcePre)
+}
+
+// StepBlockFS: as StepBlockF with a set of transactions forced to fail at message level.
+func (m *Model) StepBlockFS(blk *Block, w *BlockWitness, forced map[int]bool, forcePre int) (pre []MResult, fx BlockEffects, txr []MTxRes) {
 	for i := range blk.Pre {
 		if i == forcePre {
 			pre = append(pre, rej("injected failure"))
@@ -1163,8 +1168,8 @@ func (m *Model) StepBlockF(blk *Block, w *BlockWitness, forceFail, forcePre int)
 			r = ante("sequence mismatch")
 		case tx.Msg.Who != tx.Actor:
 			r = ante("signature does not match the message's signer")
-		case i == forceFail:
-			r = rej("injected failure")
+		case forced[i]:
+			r = rej("forced failure")
 			m.Seq[signer]++
 		default:
 			r = m.ApplyMsg(&tx.Msg)
